@@ -25,13 +25,20 @@ import (
 //	       ["await",k]                     wait until stop handle k is done (HANG after the timeout)
 //	       ["waitgate",g] | ["release",g]  wait until g is inside its gated Stopped handler | let it go on
 //	       ["probe",n]                     n reports Children() and Parent() from inside a Receive
+//	       ["spawn",p,c]                   p spawns a new child with id c ON DEMAND, from inside the Receive of a message (not from
+//	                                       Started: a later incarnation of p does not spawn it again)
+//	       ["restart",n]                   n panics in a Receive while it has restart budget left (maxr): a new incarnation on the
+//	                                       same process and Context; the harness waits until it has handled Started
 //	       ["hold",k,c,m]                  with a gate closed: go on when handle k is done (it should not be), or when the
 //	                                       inbox of the stopping actor c holds m envelopes (the ancestor stopped through
 //	                                       k has reached c and waits for it), or after a long second
 //
+// The children listed in the tree are spawned by the FIRST incarnation of a node only, so that a restart cannot
+// mask lost children by spawning them again under the same ids.  "crash" is a panic with the budget used up.
 // At the end every gate is released and every handle awaited.
 type treeCase struct {
 	Tree  json.RawMessage `json:"tree"`
+	MaxR  int             `json:"maxr"` // MaxRestarts of every node
 	Gates []int           `json:"gates"`
 	Steps [][]any         `json:"steps"`
 }
@@ -62,7 +69,8 @@ type treeProbe struct {
 type treeObs struct {
 	Events      [][]any      `json:"events"` // ["xb",n] ["xe",n] ["done",k] in global stamp order
 	XInfo       []treeXInfo  `json:"xinfo"`
-	Started     [][]int      `json:"started"` // [node, Parent() seen in its Started handler]
+	Started     [][]int      `json:"started"` // [node, Parent() seen in its Started handler], every incarnation
+	RStops      int          `json:"rstops"`  // Stopped deliveries to incarnations that were replaced by a restart
 	Handles     []treeHandle `json:"handles"`
 	Probes      []treeProbe  `json:"probes"`
 	Hang        bool         `json:"hang"`
@@ -80,6 +88,10 @@ type tnode struct {
 type tprobeMsg struct{ k int }
 type tdieMsg struct{ k int }
 type tboomMsg struct{}
+type tspawnMsg struct {
+	child *tnode
+	ack   chan struct{}
+}
 type tselfPill struct {
 	ctx   context.Context
 	early bool // already done when Poison returned inside the handler
@@ -98,6 +110,7 @@ type thandle struct {
 type tstamped struct {
 	stamp int64
 	ev    []any
+	inc   int // incarnation that produced an xb/xe (0 otherwise)
 }
 
 type treeWorld struct {
@@ -121,6 +134,11 @@ type treeWorld struct {
 	crashOf map[int]*thandle      // node -> crash handle waiting for its ActorStoppedEvent
 	evSeen  map[int]chan struct{} // closed when the ActorStoppedEvent of the node was seen
 	notes   []string
+	maxr    int
+	incs    map[int]int           // node -> incarnations created so far
+	restart map[int]bool          // node -> the harness has just made it panic with budget left
+	upCh    map[int]chan struct{} // node -> closed when the incarnation after a restart has handled Started
+	rstops  int
 }
 
 func parseTree(raw json.RawMessage, parent *tnode, w *treeWorld) (*tnode, error) {
@@ -157,19 +175,40 @@ func parseTree(raw json.RawMessage, parent *tnode, w *treeWorld) (*tnode, error)
 	return n, nil
 }
 
-func (n *tnode) closure() []int {
+// closureU needs w.mu (the kids lists grow when children are spawned on demand)
+func (n *tnode) closureU() []int {
 	out := []int{n.id}
 	for _, k := range n.kids {
-		out = append(out, k.closure()...)
+		out = append(out, k.closureU()...)
 	}
 	return out
 }
 
-func (w *treeWorld) stamp(ev ...any) {
+func (w *treeWorld) closure(n *tnode) []int {
+	w.mu.Lock()
+	defer w.mu.Unlock()
+	return n.closureU()
+}
+
+func (w *treeWorld) stamp(inc int, ev ...any) {
 	s := atomic.AddInt64(&w.counter, 1)
 	w.mu.Lock()
-	w.evs = append(w.evs, tstamped{s, ev})
+	w.evs = append(w.evs, tstamped{s, ev, inc})
 	w.mu.Unlock()
+}
+
+func (w *treeWorld) producer(n *tnode) actor.Producer {
+	return func() actor.Receiver {
+		w.mu.Lock()
+		w.incs[n.id]++
+		inc := w.incs[n.id]
+		w.mu.Unlock()
+		return &treeRecv{w: w, n: n, inc: inc}
+	}
+}
+
+func (w *treeWorld) childOpts(id int) []actor.OptFunc {
+	return []actor.OptFunc{actor.WithID(strconv.Itoa(id)), actor.WithMaxRestarts(w.maxr), actor.WithRestartDelay(time.Microsecond)}
 }
 
 func (w *treeWorld) registered(id int) bool {
@@ -178,7 +217,9 @@ func (w *treeWorld) registered(id int) bool {
 
 // kind of a node: PID.ID = kind + "/" + id
 func (w *treeWorld) kindOf(id int) string {
+	w.mu.Lock()
 	p := w.nodes[id].path
+	w.mu.Unlock()
 	return p[:strings.LastIndex(p, "/")]
 }
 
@@ -186,7 +227,10 @@ func (w *treeWorld) idOf(p *actor.PID) int {
 	if p == nil {
 		return -1
 	}
-	if id, ok := w.byPath[p.ID]; ok {
+	w.mu.Lock()
+	id, ok := w.byPath[p.ID]
+	w.mu.Unlock()
+	if ok {
 		return id
 	}
 	return -2 // a PID that is not a node of the tree
@@ -202,8 +246,9 @@ func (w *treeWorld) pidsToIDs(ps []*actor.PID) []int {
 }
 
 type treeRecv struct {
-	w *treeWorld
-	n *tnode
+	w   *treeWorld
+	n   *tnode
+	inc int
 }
 
 func (r *treeRecv) Receive(c *actor.Context) {
@@ -213,16 +258,38 @@ func (r *treeRecv) Receive(c *actor.Context) {
 		par := w.idOf(c.Parent())
 		w.mu.Lock()
 		w.started = append(w.started, []int{n.id, par})
+		var kids []*tnode
+		if r.inc == 1 {
+			kids = append(kids, n.kids...)
+		}
 		w.mu.Unlock()
-		for _, k := range n.kids {
-			k := k
-			c.SpawnChild(func() actor.Receiver { return &treeRecv{w: w, n: k} }, "n",
-				actor.WithID(strconv.Itoa(k.id)), actor.WithMaxRestarts(0))
+		for _, k := range kids {
+			c.SpawnChild(w.producer(k), "n", w.childOpts(k.id)...)
+		}
+		if r.inc > 1 {
+			w.mu.Lock()
+			ch := w.upCh[n.id]
+			delete(w.upCh, n.id)
+			w.mu.Unlock()
+			if ch != nil {
+				close(ch)
+			}
 		}
 	case actor.Stopped:
-		w.stamp("xb", n.id)
+		w.mu.Lock()
+		replaced := w.restart[n.id]
+		if replaced {
+			// the Stopped a failed incarnation gets before it is replaced: not the actor's stop
+			w.restart[n.id] = false
+			w.rstops++
+		}
+		w.mu.Unlock()
+		if replaced {
+			return
+		}
+		w.stamp(r.inc, "xb", n.id)
 		info := treeXInfo{N: n.id, SelfReg: c.GetPID(n.path) != nil, DescReg: []int{}, Parent: w.idOf(c.Parent())}
-		for _, d := range n.closure()[1:] {
+		for _, d := range w.closure(n)[1:] {
 			if w.registered(d) {
 				info.DescReg = append(info.DescReg, d)
 			}
@@ -243,7 +310,10 @@ func (r *treeRecv) Receive(c *actor.Context) {
 		w.mu.Lock()
 		w.xe[n.id] = true
 		w.mu.Unlock()
-		w.stamp("xe", n.id)
+		w.stamp(r.inc, "xe", n.id)
+	case tspawnMsg:
+		c.SpawnChild(w.producer(m.child), "n", w.childOpts(m.child.id)...)
+		close(m.ack)
 	case tprobeMsg:
 		w.mu.Lock()
 		p := w.probes[m.k]
@@ -277,7 +347,10 @@ func (w *treeWorld) note(f string, a ...any) {
 func (w *treeWorld) markDone(k int, h *thandle) {
 	h.once.Do(func() {
 		alive := []int{}
-		for _, d := range w.nodes[h.target].closure() {
+		w.mu.Lock()
+		tn := w.nodes[h.target]
+		w.mu.Unlock()
+		for _, d := range w.closure(tn) {
 			w.mu.Lock()
 			through := w.xe[d]
 			w.mu.Unlock()
@@ -287,7 +360,7 @@ func (w *treeWorld) markDone(k int, h *thandle) {
 		}
 		sort.Ints(alive)
 		h.alive = alive
-		w.stamp("done", k)
+		w.stamp(0, "done", k)
 		close(h.seen)
 	})
 }
@@ -328,7 +401,8 @@ func runTree(raw json.RawMessage) (any, error) {
 	w := &treeWorld{e: e, nodes: map[int]*tnode{}, byPath: map[string]int{}, gated: map[int]bool{},
 		reached: map[int]chan struct{}{}, release: map[int]chan struct{}{}, relOnce: map[int]*sync.Once{},
 		xe: map[int]bool{}, probeCh: map[int]chan struct{}{}, selfCh: map[int]chan tselfPill{},
-		crashOf: map[int]*thandle{}, evSeen: map[int]chan struct{}{}}
+		crashOf: map[int]*thandle{}, evSeen: map[int]chan struct{}{}, maxr: c.MaxR, incs: map[int]int{},
+		restart: map[int]bool{}, upCh: map[int]chan struct{}{}}
 	root, err := parseTree(c.Tree, nil, w)
 	if err != nil {
 		return nil, err
@@ -388,13 +462,22 @@ func runTree(raw json.RawMessage) (any, error) {
 				spawnPanic = fmt.Sprint(v)
 			}
 		}()
-		e.Spawn(func() actor.Receiver { return &treeRecv{w: w, n: root} }, "n",
-			actor.WithID(strconv.Itoa(root.id)), actor.WithMaxRestarts(0))
+		e.Spawn(w.producer(root), "n", w.childOpts(root.id)...)
 	}()
 	if spawnPanic != "" {
 		w.note("spawn panicked: %s", spawnPanic)
 	}
-	pidOf := func(id int) *actor.PID { return actor.NewPID(e.Address(), w.nodes[id].path) }
+	pidOf := func(id int) *actor.PID {
+		w.mu.Lock()
+		defer w.mu.Unlock()
+		return actor.NewPID(e.Address(), w.nodes[id].path)
+	}
+	known := func(id int) bool {
+		w.mu.Lock()
+		defer w.mu.Unlock()
+		_, ok := w.nodes[id]
+		return ok
+	}
 	num := func(x any) int { return int(x.(float64)) }
 	awaitHandle := func(k int) bool {
 		w.mu.Lock()
@@ -416,7 +499,7 @@ steps:
 		op := st[0].(string)
 		n := num(st[1])
 		if op != "await" && op != "hold" {
-			if _, ok := w.nodes[n]; !ok {
+			if !known(n) {
 				return nil, fmt.Errorf("step %v on unknown node", st)
 			}
 		}
@@ -483,7 +566,7 @@ steps:
 			releaseGate(n)
 		case "hold":
 			cnode, m := num(st[2]), int64(num(st[3]))
-			if _, ok := w.nodes[cnode]; !ok {
+			if !known(cnode) {
 				return nil, fmt.Errorf("step %v on unknown node", st)
 			}
 			w.mu.Lock()
@@ -507,6 +590,42 @@ steps:
 					break hold
 				}
 				time.Sleep(100 * time.Microsecond)
+			}
+		case "spawn":
+			cid := num(st[2])
+			if known(cid) {
+				return nil, fmt.Errorf("step %v: id already in use", st)
+			}
+			w.mu.Lock()
+			pn := w.nodes[n]
+			child := &tnode{id: cid, parent: pn, path: pn.path + "/n/" + strconv.Itoa(cid)}
+			pn.kids = append(pn.kids, child)
+			w.nodes[cid] = child
+			w.byPath[child.path] = cid
+			w.evSeen[cid] = make(chan struct{})
+			w.mu.Unlock()
+			ack := make(chan struct{})
+			e.Send(pidOf(n), tspawnMsg{child, ack})
+			select {
+			case <-ack:
+			case <-time.After(treeAwait):
+				w.note("spawn request to %d not handled", n)
+				obs.Hang = true
+				break steps
+			}
+		case "restart":
+			up := make(chan struct{})
+			w.mu.Lock()
+			w.restart[n] = true
+			w.upCh[n] = up
+			w.mu.Unlock()
+			e.Send(pidOf(n), tboomMsg{})
+			select {
+			case <-up:
+			case <-time.After(treeAwait):
+				w.note("%d did not come up again", n)
+				obs.Hang = true
+				break steps
 			}
 		case "probe":
 			p := &treeProbe{N: n, Kids: []int{}, Parent: -1}
@@ -542,7 +661,7 @@ steps:
 	must := map[int]bool{}
 	w.mu.Lock()
 	for _, h := range w.handles {
-		for _, d := range w.nodes[h.target].closure() {
+		for _, d := range w.nodes[h.target].closureU() {
 			must[d] = true
 		}
 	}
@@ -568,9 +687,24 @@ steps:
 	sort.Slice(w.evs, func(i, j int) bool { return w.evs[i].stamp < w.evs[j].stamp })
 	obs.Events = [][]any{}
 	for _, s := range w.evs {
+		// an xb/xe of an incarnation that was replaced afterwards is not the actor's stop
+		if s.inc != 0 && s.inc != w.incs[int(s.ev[1].(int))] {
+			obs.RStops++
+			continue
+		}
 		obs.Events = append(obs.Events, s.ev)
 	}
-	obs.XInfo = append([]treeXInfo{}, w.xinfo...)
+	obs.RStops = obs.RStops/2 + w.rstops
+	obs.XInfo = []treeXInfo{}
+	lastX := map[int]int{}
+	for i, x := range w.xinfo {
+		lastX[x.N] = i
+	}
+	for i, x := range w.xinfo {
+		if lastX[x.N] == i {
+			obs.XInfo = append(obs.XInfo, x)
+		}
+	}
 	sort.Slice(obs.XInfo, func(i, j int) bool { return obs.XInfo[i].N < obs.XInfo[j].N })
 	obs.Started = append([][]int{}, w.started...)
 	sort.Slice(obs.Started, func(i, j int) bool { return obs.Started[i][0] < obs.Started[j][0] })
